@@ -1,6 +1,6 @@
 """registry: which units decide which property, and what each check does and does not decide"""
 
-UNITS = ['types']
+UNITS = ['types', 'sym']
 
 PROPS = {
     'C20': dict(
@@ -15,5 +15,28 @@ PROPS = {
         ],
         not_decided=['associativity over triples (three-call relational clause; follows from join outside carve-outs, not stated)'],
         explanation='Verus proves the postconditions of every function of types.rs that promotion depends on, for all types (all widths, dims), no bound.',
+    ),
+    'C19': dict(
+        units=['sym'],
+        decided=[
+            'representation invariant wf established by SymbolTable::new and preserved by every operation (=> all histories, no length bound)',
+            'lookup(n) == resolve(view, n): the binding of the innermost open scope that has one',
+            'new_binding fails iff the current scope has the name, then changes nothing; otherwise appends (name,type) with id = old store length and updates exactly the top map',
+            'exit_scope drops exactly the top map, store and counter untouched; ids index the store and keep name and type after exit',
+            'the seven built-ins resolve after new()',
+        ],
+        not_decided=['ScopeSymbolTable <-> hashbrown::HashMap (six one-line delegations, trusted)', 'standard_library_gates/gates/hardware_qubits/dump'],
+        explanation='Verus proves per-operation contracts over a stack-of-maps view; induction over histories is the invariant.',
+    ),
+    'C07': dict(
+        units=['sym'],
+        decided=[
+            'C19 contracts (innermost-first resolution, redeclaration only in the current scope, ids index the final table)',
+            'Context::lookup_symbol / lookup_gate_symbol push exactly one UndefVarError / UndefGateError iff resolution fails, nothing otherwise, and resolve innermost-first',
+            'Context::new_binding pushes exactly one RedeclarationError(name) iff the name is in the current scope and never replaces the first binding',
+        ],
+        not_decided=['that every construct is wrapped in enter/exit (stmt_to_asg_stmt: closures)', 'gate/def parameter binding (bind_*)',
+                     'analysis order initializer-before-binding (SEMA unit, when available)'],
+        explanation='Verus; see C19.',
     ),
 }
